@@ -2,7 +2,8 @@
 from .common import *
 
 ID = "C17"
-PROPS_FILES = ["Props/C17"]
+PROPS_FILES = ["Props/C17", "Props/FixedPoint"]
+FRAGMENTS = ["fixed-point"]
 TRUSTED = [
     "Coq 8.16.1 kernel (vm_compute); Flocq 4.1.0 binary64 for demultiply",
     "hand-written Model/Png.v (premultiply_u8, demultiply, colour-type expansion) tied by the exhaustive c17 correspondence",
